@@ -1,11 +1,24 @@
 package main
 
-// Known findings and counterexample replay.
+// Known findings and counterexample replay against the real code.
+//
+// Replay: a fixture (/verif/replay/fixtures/<function>.json) names the inputs of the function as
+// specification expressions over the entry state, Go code that builds that state from concrete values,
+// calls the real function and prints observable outputs, and the outputs as specification expressions
+// over the final state. The solver is asked for the values of the inputs in its counterexample
+// (get-value); the Go code is run with `go test -overlay` (nothing is written into the repository); the
+// violated clause is then evaluated by the solver with inputs and observed outputs pinned. If it cannot
+// hold, the violation is confirmed on the real code.
 
 import (
+	"encoding/json"
 	"fmt"
 	"os"
+	"os/exec"
 	"path/filepath"
+	"regexp"
+	"sort"
+	"strings"
 )
 
 // matchKnown decides whether a failed obligation is covered by an open known finding: every
@@ -57,29 +70,294 @@ func matchKnown(open []KnownFinding, prop string, o *Obligation, e *Exec, scratc
 	return nil
 }
 
+type Fixture struct {
+	PackageDir string                       `json:"package_dir"`
+	Inputs     map[string]string            `json:"inputs"`
+	Slices     map[string]FixtureSlice      `json:"slices"`
+	Imports    []string                     `json:"imports"`
+	Go         []string                     `json:"go"`
+	Outputs    map[string]string            `json:"outputs"`
+	Helpers    []string                     `json:"helpers"`
+}
+
+type FixtureSlice struct {
+	Expr string `json:"expr"`
+	Max  int    `json:"max"`
+	Type string `json:"type"` // Go element type
+}
+
+func fixturePath(fnName string) string {
+	return filepath.Join(verifRoot, "replay", "fixtures", sanitizeFile(fnName)+".json")
+}
+
+func smtToGo(v string) string {
+	v = strings.TrimSpace(v)
+	if strings.HasPrefix(v, "(- ") && strings.HasSuffix(v, ")") {
+		return "-" + strings.TrimSpace(v[3:len(v)-1])
+	}
+	return v
+}
+
+var outLine = regexp.MustCompile(`VERIF-OUT ([A-Za-z0-9_]+)=(.*)`)
+
 // tryReplay turns a counterexample into an execution of the real code where a fixture exists.
 func tryReplay(g *Gen, e *Exec, o *Obligation, cex map[string]string, scratch string) (bool, map[string]interface{}) {
 	rep := map[string]interface{}{}
-	fix := filepath.Join(verifRoot, "replay", "fixtures", sanitizeFile(e.fnName)+".go.tmpl")
-	if _, err := os.Stat(fix); err != nil {
+	fp := fixturePath(e.fnName)
+	var fx Fixture
+	if err := loadJSON(fp, &fx); err != nil {
 		rep["status"] = "no fixture for " + e.fnName + ": inputs are not constructible from the model (abstract values); reported without failing input"
 		return false, rep
 	}
-	return runFixture(g, e, o, cex, fix, scratch, rep)
+	if o.Kind != "post" || o.postSt == nil {
+		rep["status"] = "replay is implemented for postconditions only"
+		return false, rep
+	}
+	// 1. input terms
+	env := e.topEnv(e.old)
+	env.paramsAtEntry = true
+	env.cur = e.old
+	nf, nerr := len(e.facts), len(e.errs)
+	type inTerm struct{ name, term, sort string }
+	var ins []inTerm
+	var names []string
+	for n := range fx.Inputs {
+		names = append(names, n)
+	}
+	sort.Strings(names)
+	evalScalar := func(text string, env *SpecEnv) (string, string, bool) {
+		x, err := parseSpecExpr(text)
+		if err != nil {
+			return "", "", false
+		}
+		v, _ := e.evalSpec(x, env)
+		sv, ok := v.(SV)
+		if !ok {
+			return "", "", false
+		}
+		return sv.T, sv.S, true
+	}
+	for _, n := range names {
+		t, s, ok := evalScalar(fx.Inputs[n], env)
+		if !ok {
+			rep["status"] = "fixture input " + n + " does not evaluate to a scalar"
+			e.facts, e.errs = e.facts[:nf], e.errs[:nerr]
+			return false, rep
+		}
+		ins = append(ins, inTerm{n, t, s})
+	}
+	var snames []string
+	for n := range fx.Slices {
+		snames = append(snames, n)
+	}
+	sort.Strings(snames)
+	for _, n := range snames {
+		sl := fx.Slices[n]
+		t, s, ok := evalScalar("len("+sl.Expr+")", env)
+		if !ok {
+			rep["status"] = "fixture slice " + n + " has no length"
+			e.facts, e.errs = e.facts[:nf], e.errs[:nerr]
+			return false, rep
+		}
+		ins = append(ins, inTerm{n + ".len", t, s})
+		for i := 0; i < sl.Max; i++ {
+			t, s, ok := evalScalar(fmt.Sprintf("(%s)[%d]", sl.Expr, i), env)
+			if ok {
+				ins = append(ins, inTerm{fmt.Sprintf("%s.%d", n, i), t, s})
+			}
+		}
+	}
+	inputFacts := append([]string{}, e.facts[nf:]...)
+	e.facts, e.errs = e.facts[:nf], e.errs[:nerr]
+	// 2. values from the solver
+	o2 := *o
+	for _, f := range inputFacts {
+		o2.Extra = append(o2.Extra, "(assert "+f+")")
+	}
+	body := e.smtFor(&o2)
+	var terms []string
+	for _, it := range ins {
+		terms = append(terms, it.term)
+	}
+	body = strings.Replace(body, "(get-model)", "(get-value ("+strings.Join(terms, " ")+"))", 1)
+	fn, _ := writeSMT(scratch, o.Name+".values", body)
+	vals := map[string]string{}
+	got := false
+	for _, sd := range solvers {
+		r := runOne(contextBG(), sd, fn, 20, 0)
+		if r.Status != "sat" {
+			continue
+		}
+		sx := parseSx("(" + r.Model + ")")
+		if len(sx.L) == 0 || len(sx.L[0].L) != len(ins) {
+			continue
+		}
+		for i, pair := range sx.L[0].L {
+			if len(pair.L) == 2 {
+				vals[ins[i].name] = pair.L[1].String()
+			}
+		}
+		got = true
+		break
+	}
+	if !got {
+		rep["status"] = "could not obtain input values from the solver"
+		return false, rep
+	}
+	rep["inputs"] = vals
+	// 3. render the Go test
+	code := strings.Join(fx.Go, "\n")
+	for _, n := range snames {
+		sl := fx.Slices[n]
+		ln := 0
+		fmt.Sscanf(smtToGo(vals[n+".len"]), "%d", &ln)
+		if ln > sl.Max || ln < 0 {
+			rep["status"] = fmt.Sprintf("counterexample needs a slice of length %d (> fixture bound %d): not constructible", ln, sl.Max)
+			return false, rep
+		}
+		var elems []string
+		for i := 0; i < ln; i++ {
+			elems = append(elems, smtToGo(vals[fmt.Sprintf("%s.%d", n, i)]))
+		}
+		code = strings.ReplaceAll(code, "$"+n, fmt.Sprintf("[]%s{%s}", sl.Type, strings.Join(elems, ", ")))
+	}
+	// longest names first so that $ab is not clobbered by $a
+	sort.Slice(names, func(i, j int) bool { return len(names[i]) > len(names[j]) })
+	for _, n := range names {
+		code = strings.ReplaceAll(code, "$"+n, smtToGo(vals[n]))
+	}
+	pkgName := e.fi.pkg.Types.Name()
+	var src strings.Builder
+	fmt.Fprintf(&src, "package %s\n\nimport (\n\t\"fmt\"\n\t\"testing\"\n", pkgName)
+	for _, im := range fx.Imports {
+		fmt.Fprintf(&src, "\t%s\n", im)
+	}
+	src.WriteString(")\n\nvar _ = fmt.Sprint\n\n")
+	for _, h := range fx.Helpers {
+		src.WriteString(h + "\n")
+	}
+	src.WriteString("func TestVerifReplayZZ(t *testing.T) {\n\tout := func(name string, v interface{}) { fmt.Printf(\"VERIF-OUT %s=%v\\n\", name, v) }\n\t_ = out\n")
+	src.WriteString(code)
+	src.WriteString("\n}\n")
+	repo := os.Getenv("VERIF_REPO")
+	if repo == "" {
+		repo = "/repo"
+	}
+	testFile := filepath.Join(scratch, sanitizeFile(o.Name)+"_replay_test.go")
+	os.WriteFile(testFile, []byte(src.String()), 0o644)
+	ov := map[string]map[string]string{"Replace": {filepath.Join(repo, fx.PackageDir, "zz_verif_replay_test.go"): testFile}}
+	ovb, _ := json.Marshal(ov)
+	ovFile := filepath.Join(scratch, sanitizeFile(o.Name)+"_overlay.json")
+	os.WriteFile(ovFile, ovb, 0o644)
+	cmd := exec.Command("go", "test", "-overlay", ovFile, "-vet=off", "-timeout", "60s", "-count=1", "-v", "-run", "^TestVerifReplayZZ$", "./"+fx.PackageDir)
+	cmd.Dir = repo
+	outb, err := cmd.CombinedOutput()
+	rep["go_test"] = truncate(string(outb), 3000)
+	rep["go_source"] = src.String()
+	observed := map[string]string{}
+	for _, m := range outLine.FindAllStringSubmatch(string(outb), -1) {
+		observed[m[1]] = strings.TrimSpace(m[2])
+	}
+	if len(observed) == 0 {
+		rep["status"] = fmt.Sprintf("replay did not run to completion (%v)", err)
+		return false, rep
+	}
+	rep["observed"] = observed
+	// 4. evaluate the clause with inputs and outputs pinned
+	penv := e.topEnv(o.postSt)
+	penv.paramsAtEntry = true
+	e.resultNames(penv, e.frames[0], o.postSt)
+	nf, nerr = len(e.facts), len(e.errs)
+	var pins []string
+	for _, it := range ins {
+		if v, ok := vals[it.name]; ok {
+			pins = append(pins, mkEq(it.term, v))
+		}
+	}
+	var onames []string
+	for n := range fx.Outputs {
+		onames = append(onames, n)
+	}
+	sort.Strings(onames)
+	for _, n := range onames {
+		ov, ok := observed[n]
+		if !ok {
+			continue
+		}
+		t, s, ok := evalScalar(fx.Outputs[n], penv)
+		if !ok {
+			continue
+		}
+		if s == SBool {
+			pins = append(pins, mkEq(t, ov))
+		} else {
+			pins = append(pins, mkEq(t, mkBigInt(ov)))
+		}
+	}
+	clauseT := o.ClauseTerm
+	outFacts := append([]string{}, e.facts[nf:]...)
+	e.facts, e.errs = e.facts[:nf], e.errs[:nerr]
+	var b strings.Builder
+	b.WriteString(prelude)
+	b.WriteString(e.specFnDefs())
+	for _, d := range e.decls {
+		if !strings.HasPrefix(d, "(assert ") {
+			b.WriteString(d + "\n")
+		}
+	}
+	_ = outFacts
+	for _, p := range pins {
+		b.WriteString("(assert " + p + ")\n")
+	}
+	b.WriteString("(assert " + clauseT + ")\n(check-sat)\n")
+	cf, _ := writeSMT(scratch, o.Name+".confirm", b.String())
+	r := solve(cf, 20, 0, false)
+	rep["confirm_query_status"] = r.Status
+	if r.Status == "unsat" {
+		rep["status"] = "REPLAY-CONFIRMED: with the counterexample's inputs the real function produced outputs for which the clause is false"
+		return true, rep
+	}
+	rep["status"] = "replay ran but did not reproduce the violation (the counterexample may live in an abstraction); reported without failing input"
+	return false, rep
 }
 
 func runReplayFile(path string) int {
-	fmt.Println("replay of", path, ": re-run the check of the property named in the file; replays are regenerated from the solver model on every run")
 	b, err := os.ReadFile(path)
 	if err != nil {
 		fmt.Println(err)
 		return 2
 	}
-	fmt.Println(truncate(string(b), 4000))
+	var d map[string]interface{}
+	if err := json.Unmarshal(b, &d); err != nil {
+		fmt.Println(err)
+		return 2
+	}
+	fmt.Printf("property=%v obligation=%v\n", d["property"], d["obligation"])
+	fmt.Printf("clause: %v\nreason: %v\n", d["clause"], d["reason"])
+	if rp, ok := d["replay"].(map[string]interface{}); ok {
+		fmt.Printf("replay status: %v\ninputs: %v\nobserved: %v\n", rp["status"], rp["inputs"], rp["observed"])
+		if src, ok := rp["go_source"].(string); ok {
+			// re-run the recorded Go test against the current tree
+			repo := os.Getenv("VERIF_REPO")
+			if repo == "" {
+				repo = "/repo"
+			}
+			dir, _ := os.MkdirTemp("", "vreplay-")
+			defer os.RemoveAll(dir)
+			tf := filepath.Join(dir, "replay_test.go")
+			os.WriteFile(tf, []byte(src), 0o644)
+			pkgDir, _ := d["package_dir"].(string)
+			if pkgDir != "" {
+				ov := map[string]map[string]string{"Replace": {filepath.Join(repo, pkgDir, "zz_verif_replay_test.go"): tf}}
+				ovb, _ := json.Marshal(ov)
+				of := filepath.Join(dir, "ov.json")
+				os.WriteFile(of, ovb, 0o644)
+				cmd := exec.Command("go", "test", "-overlay", of, "-vet=off", "-timeout", "60s", "-count=1", "-v", "-run", "^TestVerifReplayZZ$", "./"+pkgDir)
+				cmd.Dir = repo
+				out, _ := cmd.CombinedOutput()
+				fmt.Println(string(out))
+			}
+		}
+	}
 	return 0
-}
-
-func runFixture(g *Gen, e *Exec, o *Obligation, cex map[string]string, fix, scratch string, rep map[string]interface{}) (bool, map[string]interface{}) {
-	rep["status"] = "fixture replay not implemented yet"
-	return false, rep
 }
